@@ -15,9 +15,12 @@ Oracles on the implementation's bytes (decoded with the extracted SMF decoder), 
   cut     P with `?` between two commands (point = position of a marker note compiled in its place) or PlayFrom(n) /
           PlayFrom(m:b:t) in front, against the full compile of P: note-ons before the point absent, the others (and their
           note-offs) at tick - point; controller / program / meta / SysEx messages at or after the point at tick - point,
-          in order; for every controller number written before the point one message with the latest value (latest in
-          the file = latest in time) on its channel, the latest program likewise, all at tick 0 and - compared by position
-          in the decoded list, not by tick - before the first remaining note-on and before every kept controller message.
+          in order; PER CHANNEL: for every (channel, controller number) written before the point one message on that
+          channel with the latest value written on that channel (latest in the file = latest in time), for every channel
+          with a program change before the point its latest program likewise, nothing else, all at tick 0 and - compared
+          by position in the decoded list, not by tick - before the first remaining note-on and before every kept
+          controller message.  A track may change its channel (CH(n)) between parts: the settings of the earlier
+          channel stay in force on it.
 Pitch bend messages are ignored by the cut oracle (the code drops them before and after the point; the property text does
 not mention them)."""
 import json, os, re
@@ -29,14 +32,17 @@ THEOREMS = ["C14_time_formula", "C14_time_ticks", "C14_beat_exact", "C14_beat_de
             "C14_rest_is_shift", "C14_shifted_means", "C14_step_shift", "C14_exec_respects", "C14_shift_law", "C14_rest_shift",
             "C14_rest_shift_fold",
             "C14_playfrom", "C14_playfrom_notes", "C14_playfrom_kept", "C14_playfrom_early", "C14_playfrom_restored_cc",
-            "C14_playfrom_restored_voice", "C14_latest_cc_means", "C14_latest_voice_means", "C14_playfrom_latest_in_time",
+            "C14_playfrom_restored_cc_shape", "C14_playfrom_restored_voice", "C14_playfrom_restored_voice_shape", "C14_playfrom_channel",
+            "C14_latest_cc_means", "C14_latest_cc_none", "C14_latest_voice_means", "C14_latest_voice_none", "C14_playfrom_latest_in_time",
             "C14_playfrom_sorted_tick0", "C14_playfrom_sorted_order", "C14_playfrom_drops", "C14_playfrom_applied"]
 DRIVERS = ["core"]
 RULE = ("tick: tb in 48/96/480/960 (or default), n in 2..64, d in 2/4/8/16, shift -2..5, m 1..40, b 1..n+2, t 0..2*beat, five spellings; "
         "shift: 1..6 parts of core-language blocks (notes, rests, numbered notes, l/o/v/q/t, chords, tuplets, Sub, loops) and "
         "program / controller / tempo / time-signature commands (also inside Sub), rest lengths 1..32, dotted, %n, tied; "
         "cut: the same programs on 1..3 tracks, point = every kind of position (between any two parts, exact note starts, "
-        "one tick before / after, 0, beyond the end), controller writes inside Sub{} later in time than following ones; "
+        "one tick before / after, 0, beyond the end), controller writes inside Sub{} later in time than following ones, "
+        "tracks that change their channel (CH(n) between parts, the same controller / the program set on two or three channels "
+        "before the point, the remaining notes on an EARLIER channel); "
         "correspondence: blocks and syntax-tree programs with 1..5 inserted time commands. non-trivial = distinct source "
         "with >= 2 notes and, for cut, a point strictly inside the track")
 TRUSTED = ["SMF container / track decoding by the extracted specification decoder (C01, C02)",
@@ -129,11 +135,17 @@ def clean_block(rng, depth=2, lo=1, hi=4):
             return b + " "
 
 
-def gen_parts(rng, n, events=True):
+CHANS = [1, 2, 3, 10]          # (16 is the marker's channel)
+
+
+def gen_parts(rng, n, events=True, chans=False):
+    """chans: the track changes its channel between parts (CH(n)), often followed by a setting on the new channel"""
     parts = []
     for _ in range(n):
         k = rng.random()
-        if events and k < 0.30:
+        if chans and k < 0.25:
+            parts.append("CH(%d) " % rng.choice(CHANS) + (rng.choice(CC_CMDS) + " " if rng.random() < 0.6 else ""))
+        elif events and k < 0.30:
             parts.append(rng.choice(EV_CMDS) + " ")
         elif events and k < 0.40:
             parts.append("Sub{ r%s %s} " % (rng.choice(["4", "2", "8", "1", "2."]), rng.choice(CC_CMDS)))
@@ -274,6 +286,10 @@ def check_shift(ctx, rng, n, origin):
         P = "".join(gen_parts(rng, rng.randrange(1, 7)))
         L = rng.choice(RESTS)
         cases.append((pre, P, L, tb or 96))
+    check_shift_cases(ctx, cases, origin)
+
+
+def check_shift_cases(ctx, cases, origin):
     lens = ctx.impl(["calc_length\t%s\t%d\t%d" % (vlib.enc_text(c[2]), c[3], c[3]) for c in cases])
     srcs = []
     for pre, P, L, tb in cases:
@@ -336,7 +352,7 @@ def cut_expectation(full, tp):
     notes, amb = pair_notes(full)
     ons = sorted((ch, key, st - tp, vel) for (ch, key, st, en, vel) in notes if st >= tp)
     offs = sorted((ch, key, en - tp) for (ch, key, st, en, vel) in notes if st >= tp)
-    cc, prog = {}, None
+    cc, prog = {}, {}          # (channel, controller number) -> message, channel -> message: the latest PER CHANNEL
     before_meta = []
     kept_cp, kept_meta = [], []
     for (t, kind, args) in full:
@@ -344,9 +360,9 @@ def cut_expectation(full, tp):
             if t < tp:
                 if kind == "CC":
                     ch, no, v = ints(args)
-                    cc[no] = args
+                    cc[(ch, no)] = args
                 else:
-                    prog = args
+                    prog[ints(args)[0]] = args
             else:
                 kept_cp.append((t - tp, kind, args))
         elif (kind == "Meta" and not is_eot((t, kind, args))) or kind == "SysEx":
@@ -354,7 +370,7 @@ def cut_expectation(full, tp):
                 before_meta.append((kind, args))
             else:
                 kept_meta.append((t - tp, kind, args))
-    restored = sorted([("CC", a) for a in cc.values()] + ([("Program", prog)] if prog is not None else []))
+    restored = sorted([("CC", a) for a in cc.values()] + [("Program", a) for a in prog.values()])
     return {"ons": ons, "offs": offs, "amb": amb, "restored": restored, "kept_cp": kept_cp, "kept_meta": kept_meta,
             "before_meta": before_meta}
 
@@ -374,15 +390,17 @@ def check_cut_track(ctx, src, ti, full, cut, tp):
                         str(offs)[:500], str(ex["offs"])[:500], input_text=src)
         return False
     cp = [(i, it) for i, it in enumerate(cut) if it[1] in ("CC", "Program")]
-    nr = len(ex["restored"])
-    if len(cp) != nr + len(ex["kept_cp"]) or [it for _, it in cp[nr:]] != ex["kept_cp"]:
+    nr, nk = len(ex["restored"]), len(ex["kept_cp"])
+    # the messages at or after the point are the LAST ones of the track, in order; what stands before them is the restored block
+    if len(cp) < nk or [it for _, it in cp[len(cp) - nk:]] != ex["kept_cp"]:
         ctx.oracle_fail("play-from: controller / program messages at or after the point are not kept in order at tick - point, "
                         "after the restored ones (%s)" % where, src,
                         str([it for _, it in cp])[:600], "%d restored, then %s" % (nr, str(ex["kept_cp"])[:500]), input_text=src)
         return False
-    head = cp[:nr]
+    head = cp[:len(cp) - nk]
     if sorted((it[1], it[2]) for _, it in head) != ex["restored"] or any(it[0] != 0 for _, it in head):
-        ctx.oracle_fail("play-from: the latest program / controller values before the point are not re-issued at tick 0 (%s)" % where, src,
+        ctx.oracle_fail("play-from: the latest program / controller values of every channel before the point are not re-issued "
+                        "(each on its channel, exactly once) at tick 0 (%s)" % where, src,
                         str([it for _, it in head])[:600], str(ex["restored"])[:600], input_text=src)
         return False
     first_on = next((i for i, it in enumerate(cut) if it[1] == "NoteOn"), None)
@@ -455,7 +473,7 @@ def gen_cut_here(rng):
     """`?` between two parts of a one-track program; the point is found with a marker note compiled in its place"""
     tb = rng.choice(TBS + [None, None])
     pre = ("TimeBase(%d) " % tb) if tb else ""
-    parts = gen_parts(rng, rng.randrange(2, 8))
+    parts = gen_parts(rng, rng.randrange(2, 8), chans=rng.random() < 0.3)
     if rng.random() < 0.3:
         parts.append(tail_tie(rng, last=True))
     k = rng.randrange(0, len(parts) + 1)
@@ -472,15 +490,79 @@ def gen_cut_front_sources(rng):
     for i in range(rng.randrange(1, 5)):
         if ntr > 1:
             body += "TR(%d) " % rng.randrange(1, ntr + 1)
-        body += "".join(gen_parts(rng, rng.randrange(1, 5)))
+        body += "".join(gen_parts(rng, rng.randrange(1, 5), chans=rng.random() < 0.3))
         if rng.random() < 0.3:
             body += tail_tie(rng)
     return pre, body, tb or 96
 
 
+def channel_parts(rng):
+    """parts of ONE track that plays on two or three channels in turn: on each channel the program and / or some
+    controllers are set (the SAME controller numbers on the different channels, different values) and notes are played;
+    then the track returns to an EARLIER channel.  Cutting after that leaves notes on a channel whose settings were not
+    the last ones written."""
+    chs = rng.sample(CHANS, rng.choice([2, 2, 3]))
+    nos = rng.sample([7, 10, 11, 1, 91, 64], rng.choice([1, 2, 3]))
+    parts = []
+    visits = chs + [rng.choice(chs[:-1])] + [rng.choice(chs) for _ in range(rng.choice([0, 0, 1, 2]))]
+    for ch in visits:
+        p = "CH(%d) " % ch
+        for no in nos:
+            if rng.random() < 0.7:
+                p += "y%d,%d " % (no, rng.randrange(0, 128))
+        if rng.random() < 0.7:
+            p += rng.choice(["@%d " % rng.randrange(1, 129), "@%d,%d,%d " % (rng.randrange(1, 129), rng.randrange(0, 3), rng.randrange(0, 3))])
+        parts.append(p)
+        for _ in range(rng.choice([1, 1, 2])):
+            parts.append(rng.choice(["c ", "d8 e8 ", "l8 g a b ", "'ce' ", "r f ", "n62, ", "Sub{ r2 y%d,%d } e " % (rng.choice(nos), rng.randrange(0, 128))]))
+    return parts
+
+
+def gen_cut_channels(rng):
+    """`?` somewhere in a track that changes its channel (most often after the return to an earlier channel)"""
+    parts = channel_parts(rng)
+    k = rng.choice([len(parts) - 1, len(parts) - 2, rng.randrange(0, len(parts) + 1)])
+    k = max(0, k)
+    full = "".join(parts)
+    cut = "".join(parts[:k]) + rng.choice(["? ", "?", " ? "]) + "".join(parts[k:])
+    return (cut, full, None, "".join(parts[:k]) + MARK)
+
+
+def gen_cut_channels_sources(rng):
+    """the same tracks for PlayFrom(n) in front (one or two tracks)"""
+    if rng.random() < 0.3:
+        return "", "TR(1) " + "".join(channel_parts(rng)) + "TR(2) " + "".join(channel_parts(rng)), 96
+    return "", "".join(channel_parts(rng)), 96
+
+
+def gen_cut_unsorted_sources(rng):
+    """a LONG track (well over 20 events) whose event list is not in time order when the file is generated (Sub{} blocks write
+    earlier ticks after later ones) and which sets one controller / the program twice AT ONE TICK, or the program right before
+    a note: the latest value in WRITTEN order is the one in force, so whatever sorts the events before the cut must keep the
+    written order of events with equal ticks"""
+    body = "l8 "
+    for _ in range(rng.randrange(12, 30)):
+        k = rng.random()
+        if k < 0.45:
+            body += rng.choice("cdefgab") + " "
+        elif k < 0.60:
+            no = rng.choice([7, 10, 11, 1])
+            body += "y%d,%d y%d,%d " % (no, rng.randrange(0, 128), no, rng.randrange(0, 128))
+        elif k < 0.70:
+            body += "@%d @%d " % (rng.randrange(1, 129), rng.randrange(1, 129))
+        elif k < 0.80:
+            body += "@%d %s " % (rng.randrange(1, 129), rng.choice("cdefgab"))
+        elif k < 0.95:
+            body += "Sub{ %s} " % "".join(rng.choice("cdefgab") + " " for _ in range(rng.randrange(1, 7)))
+        else:
+            body += "r "
+    return "", body, 96
+
+
 def check_cut_front(ctx, rng, n, origin):
     """PlayFrom(n) / PlayFrom(m:b:t) in front; the points are chosen from the full compile (exact note starts, +-1, 0, beyond)"""
-    gens = [gen_cut_front_sources(rng) for _ in range(n)]
+    gens = ([gen_cut_front_sources(rng) for _ in range(n)] + [gen_cut_unsorted_sources(rng) for _ in range(n // 3)]
+            + [gen_cut_channels_sources(rng) for _ in range(n // 3)])
     decs = compile_all(ctx, [p + b for p, b, _ in gens], compare=False)
     pairs = []
     for (pre, body, tb), d in zip(gens, decs):
@@ -517,6 +599,9 @@ def check_corpus(ctx):
     ticks = [(o["src"], o["tick"]) for o in items if o.get("kind") == "tick"]
     if ticks:
         check_tick(ctx, ticks, "corpus")
+    shifts = [(o.get("pre", ""), o["program"], o["rest"], o.get("tb", 96)) for o in items if o.get("kind") == "shift"]
+    if shifts:
+        check_shift_cases(ctx, shifts, "corpus")
     cuts = [(o["src"], o["full"], o["tp"], None) for o in items if o.get("kind") == "cut"]
     if cuts:
         check_cut_pairs(ctx, cuts, "corpus")
@@ -529,6 +614,7 @@ def run(ctx):
     check_tick(ctx, [gen_tick(rng) for _ in range(400 if q else 10000)], "tick")
     check_shift(ctx, rng, 250 if q else 5000, "shift")
     check_cut_pairs(ctx, [gen_cut_here(rng) for _ in range(250 if q else 5000)], "cut:here")
+    check_cut_pairs(ctx, [gen_cut_channels(rng) for _ in range(100 if q else 2000)], "cut:channels")
     check_cut_front(ctx, rng, 250 if q else 5000, "cut:front")
     n = 300 if q else 8000
     srcs = [free_source(rng) for _ in range(n)] + tree_sources(ctx, rng, n)
